@@ -20,8 +20,8 @@ type Plan struct {
 	Yields    map[string]int64 `json:"yields,omitempty"` // site -> max ns
 	PoolFresh int              `json:"pool_fresh_permille"`
 	OrderSalt uint64           `json:"order_salt"`
-	Deadline  time.Duration    `json:"deadline"` // absolute simulated time
-	Settle    time.Duration    `json:"settle"`   // extra simulated time after the last op completes
+	Deadline  time.Duration    `json:"deadline"`          // absolute simulated time
+	Settle    time.Duration    `json:"settle"`            // extra simulated time after the last op completes
 	RunFor    time.Duration    `json:"run_for,omitempty"` // the workload phase lasts at least this long (histories without client ops)
 	Extra     map[string]any   `json:"extra,omitempty"`
 }
@@ -89,13 +89,13 @@ type StackCfg struct {
 	Passthrough    bool  `json:"passthrough"`
 	MaxMessageSize int64 `json:"max_message_size"`
 
-	HealthLoop      bool          `json:"health_loop"`      // start the 30s ticker
-	InitialCheck    bool          `json:"initial_check"`    // RunHealthCheck at boot
-	ModelDiscovery  bool          `json:"model_discovery"`  // real discovery service + initial DiscoverAll
-	DiscoveryTick   time.Duration `json:"discovery_tick"`   // periodic discovery interval (0 = 5m)
-	DiscoveryRetry  int           `json:"discovery_retry"`  // retry attempts
-	SeedHealthy     bool          `json:"seed_healthy"`     // without InitialCheck: write all endpoints healthy at boot
-	SeedModels      bool          `json:"seed_models"`      // without ModelDiscovery: register EndpointCfg.Models directly
+	HealthLoop      bool          `json:"health_loop"`     // start the 30s ticker
+	InitialCheck    bool          `json:"initial_check"`   // RunHealthCheck at boot
+	ModelDiscovery  bool          `json:"model_discovery"` // real discovery service + initial DiscoverAll
+	DiscoveryTick   time.Duration `json:"discovery_tick"`  // periodic discovery interval (0 = 5m)
+	DiscoveryRetry  int           `json:"discovery_retry"` // retry attempts
+	SeedHealthy     bool          `json:"seed_healthy"`    // without InitialCheck: write all endpoints healthy at boot
+	SeedModels      bool          `json:"seed_models"`     // without ModelDiscovery: register EndpointCfg.Models directly
 	ServerReadTO    time.Duration `json:"server_read_timeout"`
 	DiscoveryTimout time.Duration `json:"discovery_timeout"`
 }
